@@ -2,9 +2,6 @@ import XixiKV.Proofs.Frame
 import XixiKV.Proofs.Chunk
 import XixiKV.Proofs.Record
 import XixiKV.Proofs.Fio
-import XixiKV.Proofs.TransEq
-import XixiKV.Proofs.TransEq2
-import XixiKV.Proofs.TransEq3
 /-!
 # C11 — block/chunk framing round-trips every record at every offset
 
@@ -135,133 +132,5 @@ theorem C11_backends_identical (B : Nat) (hB : 0 < B) (file : Fio.OsFile) (ops :
 theorem C11_mmap_never_faults (B : Nat) (hB : 0 < B) (f : Fio.OsFile) (ops : List Fio.Op) :
     Fio.Res.fault ∉ (Fio.MMap.run B f ops).2 :=
   Fio.Fio_no_fault B hB f ops
-
-/-! ## the writer and the chunk decoder as TRANSLATED from the Go source
-
-`harness/cmd/trans` translates `(*DataFile).writeToBuf` and `DecodeChunk` from /repo's current
-source into `Generated/Trans.lean` on every run (Go subset → Lean, machine integers with explicit
-wrap-around, buffer effects as emitted segments); these theorems say that what the code computes is
-what the hand-written model computes, so every theorem of this file is about the code as it reads
-now (for the stated ranges), not only about executions that were compared. -/
-
-/-- `writeToBuf` as it stands in /repo, started in the writer state of ANY file `f`: returns the
-    position the model reports and the model's next writer state, and emits exactly the bytes the
-    model appends (padding + chunks with correct 16-bit lengths and in-bounds slices). -/
-theorem C11_translated_writeToBuf (C : Codec) (fid : Nat) (f data : ByteArray)
-    (hdata : data.size < 2^31) (hblk : f.size / BS + data.size / 32761 + 2 < 2^32) :
-    ∃ segs bytes,
-      Generated.Trans.datafile.writeToBuf fid data (f.size / BS) (f.size % BS)
-        = some (({ Fid := fid, BlockID := (posOf C fid f.size data).block,
-                   Offset := (posOf C fid f.size data).off, Size := (posOf C fid f.size data).size },
-                 (appendRec C f data).size / BS, (appendRec C f data).size % BS), segs) ∧
-      TransEq.render C data segs = some bytes ∧ f ++ bytes = appendRec C f data :=
-  TransEq.trans_writeToBuf_appendRec C fid f data hdata hblk
-
-/-- `DecodeChunk` as it stands in /repo = the model's `Chunk.dec`, for every input slice -/
-theorem C11_translated_DecodeChunk (block : ByteArray) :
-    Generated.Trans.datafile.DecodeChunk TransEq.crcNat block = TransEq.ofDecOut (Chunk.dec block) :=
-  TransEq.trans_DecodeChunk_eq block
-
-/-- the mapping arithmetic of `(*MMap).remap` as it stands in /repo = the fio model's `roundUp` -/
-theorem C11_translated_remap (newBase dataSize : Nat) (h : newBase + dataSize < 2^62) :
-    Generated.Trans.fio.remap_endOff ↑newBase ↑dataSize
-      = ↑(Fio.roundUp Generated.Trans.fio.blockSize (newBase + dataSize)) :=
-  TransEq.trans_remap_endOff_eq newBase dataSize h
-
-/-- the position-based reader `(*DataFile).readToBuf` as it stands in /repo (loop with early returns
-    and `break`, the block window read from the file, the call to the translated `DecodeChunk`) =
-    the model's `readAt`, for every file, block id and offset in machine range: same outcome
-    (`nil` / `io.EOF` / `ErrInvalidCRC`) and, on success, the same payload; the fuel suffices. -/
-theorem C11_translated_readToBuf (file block0 : ByteArray) (blockID offset : Nat)
-    (hb0 : block0.size = 32768) (hfile : file.size / BS + 1 < 2^32) (hblk : blockID < 2^32) (hoff : offset < 2^32) :
-    ∃ out, Generated.Trans.datafile.readToBuf block0 file TransEq.crcNat (file.size / BS) (file.size % BS) blockID offset
-        = some (TransEq.ofOutErr (readAt Chunk.crcCodec file blockID offset), out) ∧
-      ∀ p, readAt Chunk.crcCodec file blockID offset = .ok p → out = p :=
-  TransEq.trans_readToBuf_eq file block0 blockID offset hb0 hfile hblk hoff
-
-/-- the record codec as it stands in /repo: `EncodeLogRecord` = the model's `encodeRecord`
-    (sizes < 2³¹, scratch header of the size the engine allocates), and `DecodeLogRecord` /
-    `DecodeLogRecordValue` return what the model decodes whenever the model decodes at all
-    (the inputs on which the model returns `none` are those on which the Go code panics or
-    mis-slices: empty input, truncated / overflowing varint, negative or oversized lengths). -/
-theorem C11_translated_record_codec :
-    (∀ (r : Record) (header : ByteArray), r.key.size < 2^31 → r.value.size < 2^31 → r.batch < 2^64 →
-        Generated.Trans.datafile.MaxLogRecordHeaderSize ≤ header.size →
-        Generated.Trans.datafile.EncodeLogRecord (TransEq.goRecord r) header = encodeRecord r) ∧
-    (∀ (data : ByteArray) (r : Record), data.size < 2^63 → decodeRecord data = some r →
-        Generated.Trans.datafile.DecodeLogRecord data = TransEq.goRecord r) ∧
-    (∀ (data v : ByteArray), data.size < 2^63 → decodeValue data = some v →
-        Generated.Trans.datafile.DecodeLogRecordValue data = v) :=
-  ⟨fun r header hk hv hb hf => TransEq.trans_EncodeLogRecord_eq21 r header hk hv hb hf,
-   fun data r hs h => TransEq.trans_DecodeLogRecord_eq data r hs h,
-   fun data v hs h => TransEq.trans_DecodeLogRecordValue_eq data v hs h⟩
-
-/-- non-vacuity: a 40 000-byte payload appended to a file that ends 3 bytes before a block boundary -/
-example : ∃ f d : ByteArray, 0 < d.size ∧ f.size % BS = 32765 ∧ d.size = 40000 :=
-  ⟨zeros 32765, zeros 40000, by simp, by simp [BS], by simp⟩
-
-
-/-! ## the sequential reader as TRANSLATED from the Go source (translator round 3) -/
-
-/-- `(*DataFile).zeroUntilEnd` as it stands in /repo (a `for` loop that reads the file block by block through
-    a pooled buffer, with a nested `range` loop over the bytes read) = the model's `allZeroFrom`: called with
-    `fileSize` = the size of the file it returns whether every byte from `from` on is zero, for every file,
-    every stale content of the pooled buffer and every start position; the fuel suffices. -/
-theorem C11_translated_zeroUntilEnd (file pool0 : ByteArray) (from_ : Nat) (hpool : pool0.size = 32768)
-    (hfile : file.size < 2^62) :
-    Generated.Trans.datafile.zeroUntilEnd pool0 file (from_ : Int) (file.size : Int) = some (allZeroFrom file from_) :=
-  TransEq.trans_zeroUntilEnd_eq file pool0 from_ hpool hfile
-
-/-- the sequential reader `(*DataReader).next` as it stands in /repo (loop over the chunks of one record with
-    early returns and `break`, the reader's block buffer, the calls of the translated `DecodeChunk`,
-    `zeroUntilEnd`, `endOfLog` and `Size`, the assigned receiver fields `blockID`, `offset`, `validEnd`) =
-    the model's sequential step `nextAt` followed by the reader's skip rule `rnormB/rnormO`, for BOTH values of
-    `tolerateTornTail`, every file whose block count fits `uint32` with room for one increment, every stale
-    content of the reader's buffer and of the pooled buffer, every reader state.  On success: the payload, the
-    position `(Fid, blockID, offset, Size)` (`Size` is a `uint32`: the model's size modulo 2³²), the new reader
-    state and `validEnd` = the end of the record; `io.EOF` / `ErrInvalidCRC` exactly when the model says end of
-    log (torn-tail, zero-tail and `tornZero` rules included) / error, with `validEnd` unchanged.  The fuel suffices. -/
-theorem C11_translated_next (file buf0 pool0 : ByteArray) (tol : Bool) (fid blockID offset : Nat) (validEnd : Int)
-    (hbuf : buf0.size = 32768) (hpool : pool0.size = 32768) (hfile : file.size / BS + 1 < 2^32)
-    (hblk : blockID < 2^32) :
-    match nextAt Chunk.crcCodec tol file blockID offset (file.size + 1) with
-    | .ok (d, sz, b', o') =>
-      Generated.Trans.datafile.next (file := file) (crc32_ChecksumIEEE := TransEq.crcNat) (getBuf_block := pool0)
-          (reader_dataFile_ID := fid) (reader_dataFile_lastBlockID := file.size / BS)
-          (reader_dataFile_lastBlockSize := file.size % BS) (reader_blockID := blockID) (reader_offset := offset)
-          (reader_blockBuf := buf0) (reader_validEnd := validEnd) (reader_tolerateTornTail := tol)
-        = some ((d, some { Fid := fid, BlockID := blockID, Offset := offset, Size := sz % 2^32 }, none),
-                rnormB b' o', rnormO o', ((b' * BS + o' : Nat) : Int))
-    | .eof => ∃ b o,
-      Generated.Trans.datafile.next (file := file) (crc32_ChecksumIEEE := TransEq.crcNat) (getBuf_block := pool0)
-          (reader_dataFile_ID := fid) (reader_dataFile_lastBlockID := file.size / BS)
-          (reader_dataFile_lastBlockSize := file.size % BS) (reader_blockID := blockID) (reader_offset := offset)
-          (reader_blockBuf := buf0) (reader_validEnd := validEnd) (reader_tolerateTornTail := tol)
-        = some ((ByteArray.empty, none, some "io.EOF"), b, o, validEnd)
-    | .err => ∃ b o,
-      Generated.Trans.datafile.next (file := file) (crc32_ChecksumIEEE := TransEq.crcNat) (getBuf_block := pool0)
-          (reader_dataFile_ID := fid) (reader_dataFile_lastBlockID := file.size / BS)
-          (reader_dataFile_lastBlockSize := file.size % BS) (reader_blockID := blockID) (reader_offset := offset)
-          (reader_blockBuf := buf0) (reader_validEnd := validEnd) (reader_tolerateTornTail := tol)
-        = some ((ByteArray.empty, none, some "ErrInvalidCRC"), b, o, validEnd) :=
-  TransEq.trans_next_eq file buf0 pool0 tol fid blockID offset validEnd hbuf hpool hfile hblk
-
-/-- non-vacuity of `C11_translated_next` (the `.ok` case on a multi-block record): a reader of either kind that
-    stands at the end of ANY file `f` returns, after a non-empty record `d` was appended (and whatever came
-    later), exactly `d`, the writer's position, and `validEnd` = the end of that record -/
-theorem C11_translated_next_write (d f post buf0 pool0 : ByteArray) (tol : Bool) (fid : Nat) (validEnd : Int)
-    (hd : 0 < d.size) (hbuf : buf0.size = 32768) (hpool : pool0.size = 32768)
-    (hF : (appendRec C f d ++ post).size / BS + 1 < 2^32) :
-    ∃ b o,
-      Generated.Trans.datafile.next (file := appendRec C f d ++ post) (crc32_ChecksumIEEE := TransEq.crcNat)
-          (getBuf_block := pool0) (reader_dataFile_ID := fid)
-          (reader_dataFile_lastBlockID := (appendRec C f d ++ post).size / BS)
-          (reader_dataFile_lastBlockSize := (appendRec C f d ++ post).size % BS)
-          (reader_blockID := endB f) (reader_offset := endO f)
-          (reader_blockBuf := buf0) (reader_validEnd := validEnd) (reader_tolerateTornTail := tol)
-        = some ((d, some { Fid := fid, BlockID := endB f, Offset := endO f,
-                           Size := (posOf C 0 f.size d).size % 2^32 }, none),
-                b, o, ((appendRec C f d).size : Int)) :=
-  TransEq.trans_next_write d f post buf0 pool0 tol fid validEnd hd hbuf hpool hF
 
 end XixiKV.C11
